@@ -1,29 +1,31 @@
 (* Property C10 - Hungarian assignment is a matching of optimal total cost.
    Model: SV.C10.Hungarian (solvor/hungarian.py lines 50-131).  Only statements; proofs are in coq/C10/. *)
 From Coq Require Import List Arith ZArith Bool.
-From SV Require Import C10.Hungarian C10.HungarianSpec C10.HungarianCert C10.HungarianPad C10.HungarianGlue C10.HungarianMain.
+From SV Require Import C10.Hungarian C10.HungarianSpec C10.HungarianCert C10.HungarianPad C10.HungarianGlue C10.HungarianMain C10.HungarianOuter.
 Import ListNotations.
 Open Scope Z_scope.
 
-(* (1) for EVERY matrix with a non-empty first row (or no rows): the model returns (no fuel / inf error),
-   one entry per row, -1 or an in-range column, no column twice, exactly min(rows, cols) rows assigned *)
-Theorem C10_matching : forall M minimize, has_cols M = true ->
+(* (1) for EVERY matrix (also 0 rows / 0 columns; number of columns = length of the first row): the model
+   returns (no fuel / inf error), one entry per row, -1 or an in-range column, no column twice, exactly
+   min(rows, cols) rows assigned *)
+Theorem C10_matching : forall M minimize,
   exists a c, solve M minimize = Some (a, c) /\ matching_spec M a.
 Proof. exact matching_lemma. Qed.
 Print Assumptions C10_matching.
 
 (* (2) the reported objective is the sum of the chosen entries of the ORIGINAL matrix *)
-Theorem C10_objective : forall M minimize a c, has_cols M = true ->
+Theorem C10_objective : forall M minimize a c,
   solve M minimize = Some (a, c) -> objective_spec M (a, c).
 Proof. exact objective_lemma. Qed.
 Print Assumptions C10_objective.
 
-(* the excluded degenerate class: r > 0 rows of length 0 return [] (not [-1]*r) *)
-Theorem C10_zero_cols_refuted :
+(* behaviour pinned BEFORE fix 05cf383 (model variant solve_pinned, early return [] ): r > 0 rows of length 0
+   returned [] instead of [-1]*r.  The current code / solve is covered by C10_matching without any guard. *)
+Theorem C10_zero_cols_pinned_refuted :
   exists M, wf M = true /\ has_cols M = false /\
-            exists a c, solve M true = Some (a, c) /\ ~ matching_spec M a.
-Proof. exact zero_cols_refuted_lemma. Qed.
-Print Assumptions C10_zero_cols_refuted.
+            exists a c, solve_pinned M true = Some (a, c) /\ ~ matching_spec M a.
+Proof. exact zero_cols_pinned_refuted_lemma. Qed.
+Print Assumptions C10_zero_cols_pinned_refuted.
 
 (* (3) LP-duality certificate: feasible potentials that are tight on a perfect matching prove it optimal *)
 Theorem cert_assignment : forall n C (u v : nat -> Z) s,
@@ -58,20 +60,28 @@ Print Assumptions pad_extend_ok.
 
 (* (4, per-run form) if the boolean certificate check on the model's FINAL potentials succeeds - it is
    evaluated by vm_compute for every correspondence case - the returned assignment is optimal *)
-Theorem C10_optimal_partial : forall M minimize, has_cols M = true -> solve_cert M minimize = true ->
+Theorem C10_optimal_partial : forall M minimize, solve_cert M minimize = true ->
   exists a, solve M minimize = Some (a, cost_of M a) /\ matching_spec M a /\ optimal_spec M minimize a.
 Proof. exact solve_cert_optimal. Qed.
 Print Assumptions C10_optimal_partial.
 
+(* (4) C10_optimal: for EVERY matrix the loop keeps the potentials dual feasible on the inserted rows and
+   tight on the matched pairs, so the returned assignment has minimum (minimize = true) resp. maximum
+   (minimize = false) total cost among all matchings of size min(rows, cols) *)
+Theorem C10_optimal : forall M minimize,
+  exists a, solve M minimize = Some (a, cost_of M a) /\ matching_spec M a /\ optimal_spec M minimize a.
+Proof. exact solve_optimal. Qed.
+Print Assumptions C10_optimal.
+
 (* ---------- non-vacuity *)
 Example C10_nonvacuous_input :
-  has_cols [[10;5;13];[3;9;18];[10;6;12]] = true /\ wf [[10;5;13];[3;9;18];[10;6;12]] = true
+  wf [[10;5;13];[3;9;18];[10;6;12]] = true
   /\ solve [[10;5;13];[3;9;18];[10;6;12]] true = Some ([1;0;2], 20)
   /\ solve [[10;5;13];[3;9;18];[10;6;12]] false = Some ([0;2;1], 34).
 Proof. vm_compute. repeat split. Qed.
 
 Example C10_nonvacuous_rect :
-  has_cols [[-1;-2];[-3;-4];[-5;-6]] = true
+  solve [[] ; []] true = Some ([-1;-1], 0)
   /\ solve [[-1;-2];[-3;-4];[-5;-6]] true = Some ([-1;0;1], -9)
   /\ solve [[-1;-2];[-3;-4];[-5;-6]] false = Some ([0;1;-1], -5)
   /\ solve_cert [[-1;-2];[-3;-4];[-5;-6]] true = true /\ solve_cert [[-1;-2];[-3;-4];[-5;-6]] false = true
